@@ -210,7 +210,6 @@ func runBondSim(p bondProg, nticks int) ([]bondTick, error) {
 	return out, nil
 }
 
-
 // ---- generated-hardware back-end ---------------------------------------------------------------
 
 func opsProgramHdl(ops []string) string {
